@@ -25,6 +25,8 @@ type c44World struct {
 	r    *round.Round
 	b    *block.Block
 	b2   *block.Block
+	bs   []*block.Block              // blocks built by the setup thread
+	snap [2][]*block.Block           // what the snapshot reader saw: right after the call, and again later
 	vts  []*block.VerificationTicket // built by the setup thread
 	outs []int                       // one slot per thread, written by that thread only
 }
@@ -42,6 +44,7 @@ func mkBlock(hash string, rank int, tickets ...string) *block.Block {
 
 type c44Harness struct {
 	name    string
+	verify  func(w *c44World) []viol // optional oracle on the thread-side observations (all threads ended)
 	setup   func(w *c44World)
 	threads []func(w *c44World, slot *int)
 }
@@ -326,8 +329,79 @@ func c44Harnesses() []c44Harness {
 	}
 }
 
+// resultOfRoundGetNotarizedBlocks is what the callers of Round.GetNotarizedBlocks do with the slice AFTER
+// the call has returned (sharder/protocol_round.go:31, chain/handler.go:1584, chain/protocol_round.go:82,195,444,
+// miner/m_handler.go:493 range over it and read the blocks): it walks the slice twice, with a
+// lock-taking round call (scheduling points) in between, and records both walks. A race report
+// whose reading side is this function is keyed "caller-of-RoundGetNotarizedBlocks".
+//
+//go:noinline
+func resultOfRoundGetNotarizedBlocks(w *c44World, nbs []*block.Block, slot *int) {
+	first := make([]*block.Block, len(nbs))
+	for i := range nbs {
+		first[i] = nbs[i]
+		*slot += len(nbs[i].Hash) + nbs[i].RoundRank
+	}
+	w.snap[0] = first
+	_ = w.r.IsFinalized() // other threads may run here
+	second := make([]*block.Block, len(nbs))
+	for i := range nbs {
+		second[i] = nbs[i]
+	}
+	w.snap[1] = second
+}
+
+// c44SnapshotFamily: a round holding 0, 1 or 2 notarized blocks; one thread takes the snapshot
+// GetNotarizedBlocks() and keeps using it, one thread rewrites the round's list (a second block of
+// the SAME rank and another hash = same-rank replacement after a timeout, a block of another rank,
+// or UpdateNotarizedBlock for a stored hash: miner/protocol_round.go:1131, protocol_receive.go:513,
+// chain/entity.go:599), a third only asks for the count. Oracles: the race detector in every
+// schedule, and snapshot immutability (what the snapshot holds never changes under its holder).
+func c44SnapshotFamily() []c44Harness {
+	var out []c44Harness
+	writers := []struct {
+		name string
+		op   func(w *c44World)
+	}{
+		{"AddNotarizedBlock(same rank, other hash)", func(w *c44World) { w.r.AddNotarizedBlock(w.bs[2]) }},
+		{"AddNotarizedBlock(other rank)", func(w *c44World) { w.r.AddNotarizedBlock(w.bs[3]) }},
+		{"UpdateNotarizedBlock(stored hash, new object)", func(w *c44World) { w.r.UpdateNotarizedBlock(w.bs[4]) }},
+	}
+	for n := 0; n <= 2; n++ {
+		for _, wr := range writers {
+			n, wr := n, wr
+			out = append(out, c44Harness{
+				name: fmt.Sprintf("round with %d notarized block(s): snapshot GetNotarizedBlocks and walk it || %s || len(GetNotarizedBlocks)", n, wr.name),
+				setup: func(w *c44World) {
+					// bs[0]: rank 0 hash h0, bs[1]: rank 1 hash h1 (initial content), bs[2]: rank 0 hash h0x (same rank as bs[0]),
+					// bs[3]: rank 2 hash h3, bs[4]: new object with hash h0
+					w.bs = []*block.Block{mkBlock("h0", 0, "v1"), mkBlock("h1", 1, "v1"), mkBlock("h0x", 0, "v2"), mkBlock("h3", 2, "v3"), mkBlock("h0", 0, "v4")}
+					for i := 0; i < n; i++ {
+						w.r.AddNotarizedBlock(w.bs[i])
+					}
+				},
+				threads: []func(w *c44World, slot *int){
+					func(w *c44World, slot *int) { resultOfRoundGetNotarizedBlocks(w, w.r.GetNotarizedBlocks(), slot) },
+					func(w *c44World, slot *int) { wr.op(w) },
+					func(w *c44World, slot *int) { *slot = len(w.r.GetNotarizedBlocks()) },
+				},
+				verify: func(w *c44World) []viol {
+					for i := range w.snap[0] {
+						if i < len(w.snap[1]) && w.snap[0][i] != w.snap[1][i] {
+							return []viol{{"C44:GetNotarizedBlocks:snapshot-changes-under-its-holder", fmt.Sprintf("entry %d of a slice returned by GetNotarizedBlocks was %s and later %s: the slice shares the round's storage (%s)",
+								i, w.snap[0][i].Hash, w.snap[1][i].Hash, wr.name)}}
+						}
+					}
+					return nil
+				},
+			})
+		}
+	}
+	return out
+}
+
 func c44Scenarios(thorough bool) scenarioSet {
-	hs := c44Harnesses()
+	hs := append(c44Harnesses(), c44SnapshotFamily()...)
 	bound := 2
 	if thorough {
 		bound = 3
@@ -358,7 +432,11 @@ func c44Scenarios(thorough bool) scenarioSet {
 			}
 			// every thread has ended: its writes reached the controller through the exit edge
 			w := x.Result.(*c44World)
-			return fmt.Sprintf("%d:%v", i, w.outs), nil
+			var vs []viol
+			if h.verify != nil {
+				vs = h.verify(w)
+			}
+			return fmt.Sprintf("%d:%v", i, w.outs), vs
 		}
 		return scenario{Name: h.name, Bound: bound, Body: body, Check: check}
 	}}
